@@ -150,6 +150,46 @@ def simulateRogue (nb len L : Nat) (rows : Rows) : RProg (Rows × List String ×
       .pure (rows', (p.take nb).filterMap (fun i => (rows[i]?).map Prod.fst),
                     (p.drop nb).filterMap (fun i => (rows[i]?).map Prod.fst))
 
+/-- exchange the residues of rows `i` and `j` at column `site` -/
+def swapCell (rows : Rows) (i j site : Nat) : Rows :=
+  match rows[i]?, rows[j]? with
+  | some a, some b =>
+    if i == j then rows
+    else (rows.set i (a.1, a.2.set site (b.2.getD site 0))).set j (b.1, b.2.set site (a.2.getD site 0))
+  | _, _ => rows
+
+/-- Fisher–Yates down one column: `for n > 1 { r := Intn(n); n--; swap(rows[n], rows[r]) at site }` -/
+def shuffleColumn (site : Nat) : Nat → Rows → RProg Rows
+  | 0, rows => .pure rows
+  | 1, rows => .pure rows
+  | n + 2, rows => .intn (n + 2) fun r => shuffleColumn site (n + 1) (swapCell rows (n + 1) r site)
+
+def shuffleColumns : List Nat → Rows → RProg Rows
+  | [], rows => .pure rows
+  | site :: rest, rows => RProg.bind (shuffleColumn site rows.length rows) fun rows' => shuffleColumns rest rows'
+
+/-- the extra pass over the "rogue" rows: `for r < nbRogueSeq { j := Intn(r+1); swap(tax[r], tax[j]) at site }` -/
+def rogueColumn (tax : List Nat) (site : Nat) : Nat → Nat → Rows → RProg Rows
+  | 0, _, rows => .pure rows
+  | k + 1, r, rows => .intn (r + 1) fun j => rogueColumn tax site k (r + 1) (swapCell rows (tax.getD r 0) (tax.getD j 0) site)
+
+def rogueColumns (tax : List Nat) (nbRogueSeq : Nat) : List Nat → Rows → RProg Rows
+  | [], rows => .pure rows
+  | site :: rest, rows => RProg.bind (rogueColumn tax site nbRogueSeq 0 rows) fun rows' => rogueColumns tax nbRogueSeq rest rows'
+
+/-- `ShuffleSites(rate, roguerate, randroguefirst)` with the three counts the Go code derives from the
+rates; returns the rows and the reported rogue names (empty strings when no extra site is shuffled) -/
+def shuffleSites (nbSites nbRogueSites nbRogueSeq : Nat) (rogueFirst : Bool) (rows : Rows) : RProg (Rows × List String) :=
+  let L := match rows with | r :: _ => r.2.length | [] => 0
+  let perms : RProg (List Nat × List Nat) :=
+    if rogueFirst then RProg.bind (permProg rows.length) fun tax => RProg.bind (permProg L) fun sp => .pure (sp, tax)
+    else RProg.bind (permProg L) fun sp => RProg.bind (permProg rows.length) fun tax => .pure (sp, tax)
+  RProg.bind perms fun (sp, tax) =>
+    RProg.bind (shuffleColumns (sp.take nbSites) rows) fun r1 =>
+      RProg.bind (rogueColumns tax nbRogueSeq ((sp.drop nbSites).take nbRogueSites) r1) fun r2 =>
+        .pure (r2, (List.range nbRogueSeq).map fun r =>
+          if nbRogueSites == 0 then "" else ((rows[tax.getD r 0]?).map Prod.fst).getD "")
+
 /-- one draw of `rarefySeqBag`: scan the (sorted) names, accumulating `count/total`, and take the first
 name whose cumulated probability exceeds the draw; its count is decremented, a name that reaches 0 is
 removed.  `none`: the draw is not below the final cumulated value (rounding), nothing is selected. -/
